@@ -214,6 +214,16 @@ pub(crate) fn serialize_cdata<'a, N: Normalizer>(
                 }
                 closing_square_brackets_seen = 0;
             }
+            '\r' => {
+                // a carriage return inside a CDATA section is read back as a
+                // line feed: close the section, write a character reference,
+                // and open a new section
+                for _ in 0..closing_square_brackets_seen {
+                    result.push(']');
+                }
+                closing_square_brackets_seen = 0;
+                result.push_str("]]>&#xD;<![CDATA[");
+            }
             _ => {
                 // push any closing square brackets we've seen
                 for _ in 0..closing_square_brackets_seen {
